@@ -10,7 +10,8 @@ TodoOf(sc) == CASE sc = "equal"    -> <<<<"Qa7x", "Qb7x">>, <<"Qa7x", "Qb7x">>>>
                 [] sc = "empty"    -> <<<<>>, <<"Qa7x">>>>
                 [] sc = "three"    -> <<<<"Qa7x">>, <<"Qb7x">>, <<>>>>
                 [] sc = "lazy"     -> <<<<"Qc7x">>, <<"Qc7x", "Qd7x">>>>     \* one sheet edited, the other still raw
-BaseOf(sc) == IF sc = "lazy" THEN <<<<"Qa7x", "Qb7x">>, <<"Qa7x", "Qb7x">>>>
+                [] sc = "lazyraw"  -> <<<<>>, <<>>>>                         \* lazily loaded, no sheet loaded: nothing to register
+BaseOf(sc) == IF sc \in {"lazy", "lazyraw"} THEN <<<<"Qa7x", "Qb7x">>, <<"Qa7x", "Qb7x">>>>
               ELSE [t \in DOMAIN TodoOf(sc) |-> <<>>]
 MInit == CInitWith(TodoOf(Scenario), [t \in DOMAIN TodoOf(Scenario) |-> 1], BaseOf(Scenario)) /\ hist = <<>>
 MNext == \E t \in Savers : Step(t) /\ hist' = Append(hist, t)
